@@ -72,7 +72,10 @@ EXTENDS HeapOps, TLC, Json, IOUtils
 CONSTANTS MaxRefs,    \* number of references (containers alive at once)
           MaxLen,     \* bound on the size of a container
           MaxDepth,   \* operation sequences explored: length <= MaxDepth
-          Export      \* TRUE: print every transition
+          Export,     \* TRUE: print every transition
+          Variants    \* TRUE: the index of a list operation is also taken from the end, substitute also
+                      \* outside the list, default expressions (FALSE keeps the depth-3 runs affordable;
+                      \* the depth-2 run and the random walks have them)
 
 Names == {"a", "b", "s", "c"}
 Ref   == 1..MaxRefs
@@ -85,6 +88,11 @@ vars == <<heap, names, d>>
 Tgt(n) == CASE n = "a" -> "b" [] n = "b" -> "s" [] n = "s" -> "c" [] OTHER -> "a"
 
 Holds(n, k) == IsRef(names[n]) /\ heap[names[n].v].k = k
+\* the first conjunct of every action: Finish (below) decides what is enabled at which depth; these
+\* guards only spare TLC the evaluation of an action that Finish would refuse (beyond the depth
+\* bound nothing but the probes - HoldsP -, beyond the probe level nothing at all)
+HoldsD(n, k) == d < MaxDepth /\ Holds(n, k)
+HoldsP(n, k) == d <= MaxDepth /\ Holds(n, k)
 C(n)        == heap[names[n].v]
 Size(n)     == Len(C(n).items)
 NextVal(n)  == Size(n) + 1         \* the value operations write: visible, small
@@ -138,100 +146,100 @@ Fresh(t, newc, o) ==
 (* The documented mutators. *)
 
 DoAppend(n) ==                               \* append(n, x)
-  \/ /\ Holds(n, "list") /\ Size(n) < MaxLen
+  \/ /\ HoldsP(n, "list") /\ Size(n) < MaxLen
      /\ Mutate(n, MkList(Append(C(n).items, I(NextVal(n)))),
                OpRec("append", n, "", "", NextVal(n), 0))
-  \/ /\ Holds(n, "set") /\ Size(n) < MaxLen
+  \/ /\ HoldsP(n, "set") /\ Size(n) < MaxLen
      /\ Mutate(n, MkSet(Elems(C(n)) \cup {NextVal(n)}),
                OpRec("append", n, "", "", NextVal(n), 0))
 
 DoAppendRef(n, m) ==                         \* append(n, m): nests m's container
-  /\ Holds(n, "list") /\ Size(n) < MaxLen /\ NoCycle(n, m)
+  /\ HoldsD(n, "list") /\ Size(n) < MaxLen /\ NoCycle(n, m)
   /\ Mutate(n, MkList(Append(C(n).items, names[m])), OpRec("append_ref", n, m, "", 0, 0))
 
 DoAppendRefSet(n, m) ==                      \* append(n, m) on an empty set: the set HOLDS m's list (no copy)
-  /\ Holds(n, "set") /\ Size(n) = 0 /\ Holds(m, "list") /\ NoCycle(n, m)
+  /\ HoldsD(n, "set") /\ Size(n) = 0 /\ Holds(m, "list") /\ NoCycle(n, m)
   /\ Mutate(n, Mk("rset", << >>, <<names[m]>>), OpRec("append_ref", n, m, "", 0, 0))
 
 DoAppendAll(n, m) ==                         \* append_all(n, m); m may alias n
   /\ m \in {n, Tgt(n)}
   /\ Holds(m, "list") \/ Holds(m, "set")
-  /\ \/ /\ Holds(n, "list") /\ Size(n) + Size(m) <= MaxLen
+  /\ \/ /\ HoldsD(n, "list") /\ Size(n) + Size(m) <= MaxLen
         /\ names[n].v \notin Reach(heap, RefsIn(C(m)))
         /\ Mutate(n, MkList(C(n).items \o C(m).items), OpRec("append_all", n, m, "", 0, 0))
-     \/ /\ Holds(n, "set") /\ AllInts(C(m).items)
+     \/ /\ HoldsD(n, "set") /\ AllInts(C(m).items)
         /\ Cardinality(Elems(C(n)) \cup Elems(C(m))) <= MaxLen
         /\ Mutate(n, MkSet(Elems(C(n)) \cup Elems(C(m))), OpRec("append_all", n, m, "", 0, 0))
 
 \* the index of a list operation is taken from both ends: 0 (the first place)
 \* and -1 (documented: counted from the end)
 DoInsertAt(n, end) ==                        \* insert_at(n, 0, x) | insert_at(n, -1, x)
-  /\ Holds(n, "list") /\ Size(n) < MaxLen /\ (end => Size(n) > 0)
+  /\ HoldsD(n, "list") /\ Size(n) < MaxLen /\ (end => Variants /\ Size(n) > 0)
   /\ Mutate(n, MkList(IF end THEN Append(C(n).items, I(NextVal(n))) ELSE <<I(NextVal(n))>> \o C(n).items),
             OpRec("insert_at", n, "", "", NextVal(n), IF end THEN 0 - 1 ELSE 0))
 
 DoDeleteAt(n, end) ==                        \* delete_at(n, 0) | delete_at(n, -1)
-  /\ Holds(n, "list") /\ Size(n) > (IF end THEN 1 ELSE 0)
+  /\ HoldsD(n, "list") /\ Size(n) > (IF end THEN 1 ELSE 0) /\ (end => Variants)
   /\ Mutate(n, MkList(IF end THEN SubSeq(C(n).items, 1, Size(n) - 1) ELSE Tail(C(n).items)),
             OpRec("delete_at", n, "", "", IF end THEN 0 - 1 ELSE 0, 0))
 
 DoRemove(n) ==                               \* remove(n, x)
-  \/ /\ Holds(n, "list") /\ Size(n) > 0 /\ ~IsRef(Last(C(n).items))
+  \/ /\ HoldsD(n, "list") /\ Size(n) > 0 /\ ~IsRef(Last(C(n).items))
      /\ LET it == C(n).items
             j  == MinOf({i \in DOMAIN it : it[i] = Last(it)})   \* first occurrence
         IN Mutate(n, MkList(DropIdx(it, j)), OpRec("remove", n, "", "", Last(it).v, 0))
-  \/ /\ Holds(n, "set") /\ Size(n) > 0
+  \/ /\ HoldsD(n, "set") /\ Size(n) > 0
      /\ LET x == MaxOf(Elems(C(n)))
         IN Mutate(n, MkSet(Elems(C(n)) \ {x}), OpRec("remove", n, "", "", x, 0))
-  \/ /\ Holds(n, "map") /\ Size(n) > 0
+  \/ /\ HoldsD(n, "map") /\ Size(n) > 0
      /\ Mutate(n, KeyRemove(C(n), C(n).keys[1]), OpRec("remove", n, "", "", C(n).keys[1], 0))
-  \/ /\ Holds(n, "obj") /\ Size(n) > 0
+  \/ /\ HoldsD(n, "obj") /\ Size(n) > 0
      /\ Mutate(n, KeyRemove(C(n), Last(C(n).keys)), OpRec("remove_member", n, "", "", Last(C(n).keys), 0))
 
 DoPut(n) ==                                  \* put(n, x, y)
-  /\ Holds(n, "map") /\ Size(n) < MaxLen
+  /\ HoldsP(n, "map") /\ Size(n) < MaxLen
   /\ Mutate(n, MapPut(C(n), NextVal(n), I(NextVal(n))), OpRec("put", n, "", "", NextVal(n), NextVal(n)))
 
 DoPutRefKey(n, m) ==                         \* put(n, m, 1) on an empty map: the map HOLDS m's list as its key
-  /\ Holds(n, "map") /\ Size(n) = 0 /\ Holds(m, "list") /\ NoCycle(n, m)
+  /\ HoldsD(n, "map") /\ Size(n) = 0 /\ Holds(m, "list") /\ NoCycle(n, m)
   /\ Mutate(n, Mk("rmap", << >>, <<names[m], I(1)>>), OpRec("put_key_ref", n, m, "", 0, 1))
 
 DoPutRef(n, m) ==                            \* put(n, 1, m)
-  /\ Holds(n, "map") /\ NoCycle(n, m) /\ (HasKey(C(n), 1) \/ Size(n) < MaxLen)
+  /\ HoldsD(n, "map") /\ NoCycle(n, m) /\ (HasKey(C(n), 1) \/ Size(n) < MaxLen)
   /\ Mutate(n, MapPut(C(n), 1, names[m]), OpRec("put_ref", n, m, "", 1, 0))
 
 DoSetElem(n) ==                              \* n[x] = y
-  \/ /\ Holds(n, "list") /\ Size(n) > 0
+  \/ /\ HoldsP(n, "list") /\ Size(n) > 0
      /\ Mutate(n, MkList([C(n).items EXCEPT ![1] = I(NextVal(n))]),
                OpRec("set_elem", n, "", "", 0, NextVal(n)))
-  \/ /\ Holds(n, "list") /\ Size(n) > 1     \* n[-1] = y
+  \/ /\ HoldsP(n, "list") /\ Size(n) > 1 /\ Variants     \* n[-1] = y
      /\ Mutate(n, MkList([C(n).items EXCEPT ![Size(n)] = I(NextVal(n))]),
                OpRec("set_elem", n, "", "", 0 - 1, NextVal(n)))
-  \/ /\ Holds(n, "map") /\ Size(n) > 0
+  \/ /\ HoldsP(n, "map") /\ Size(n) > 0
      /\ Mutate(n, MapPut(C(n), C(n).keys[1], I(NextVal(n))),
                OpRec("set_elem", n, "", "", C(n).keys[1], NextVal(n)))
-  \/ /\ Holds(n, "str") /\ Size(n) > 0     \* n[0] = 'c': strings are never aliased here
+  \/ /\ HoldsP(n, "str") /\ Size(n) > 0     \* n[0] = 'c': strings are never aliased here
      /\ Mutate(n, Mk("str", << >>, [C(n).items EXCEPT ![1] = I(NextVal(n))]),
                OpRec("set_elem", n, "", "", 0, NextVal(n)))
 
 DoSetElemRef(n, m) ==                        \* n[-1] = m
-  /\ Holds(n, "list") /\ Size(n) > 0 /\ NoCycle(n, m)
+  /\ HoldsD(n, "list") /\ Size(n) > 0 /\ NoCycle(n, m)
   /\ Mutate(n, MkList([C(n).items EXCEPT ![Size(n)] = names[m]]), OpRec("set_elem_ref", n, m, "", -1, 0))
 
 \* the compound element assignment with a default on a key that is not there:
 \* `n[9, 0] += y` is an element assignment (the entry 9 => 0 + y appears)
 AbsentKey == 9
 DoAddAssignElem(n) ==
-  /\ Holds(n, "map") /\ Size(n) < MaxLen /\ ~HasKey(C(n), AbsentKey)
+  /\ HoldsD(n, "map") /\ Size(n) < MaxLen /\ ~HasKey(C(n), AbsentKey)
   /\ Mutate(n, MapPut(C(n), AbsentKey, I(NextVal(n))),
             OpRec("add_assign_elem", n, "", "", AbsentKey, NextVal(n)))
 
 DoSetMember(n, mem) ==                       \* n->mem = y   (member codes 1 m, 2 n, 3 z)
-  /\ Holds(n, "obj") /\ (HasKey(C(n), mem) \/ Size(n) < MaxLen)
+  /\ HoldsP(n, "obj") /\ (HasKey(C(n), mem) \/ Size(n) < MaxLen)
   /\ Mutate(n, ObjSet(C(n), mem, I(NextVal(n))), OpRec("set_member", n, "", "", mem, NextVal(n)))
 
 DoSetMemberRef(n, m) ==                      \* n->n = m
-  /\ Holds(n, "obj") /\ NoCycle(n, m) /\ (HasKey(C(n), 2) \/ Size(n) < MaxLen)
+  /\ HoldsD(n, "obj") /\ NoCycle(n, m) /\ (HasKey(C(n), 2) \/ Size(n) < MaxLen)
   /\ Mutate(n, ObjSet(C(n), 2, names[m]), OpRec("set_member_ref", n, m, "", 2, 0))
 
 \* A method: member code 5 (`f`) holds the function `fn(self, v) do self->z = v; NULL end`
@@ -244,7 +252,7 @@ HasMethod(n) ==
   \/ /\ HasKey(C(n), 4) /\ IsRef(C(n).items[KeyIdx(C(n), 4)])
      /\ LET p == heap[C(n).items[KeyIdx(C(n), 4)].v] IN p.k = "obj" /\ HasKey(p, 5)
 DoMethodSetMember(n) ==
-  /\ Holds(n, "obj") /\ HasMethod(n) /\ (HasKey(C(n), 3) \/ Size(n) < MaxLen)
+  /\ HoldsD(n, "obj") /\ HasMethod(n) /\ (HasKey(C(n), 3) \/ Size(n) < MaxLen)
   /\ Mutate(n, ObjSet(C(n), 3, I(NextVal(n))), OpRec("method_set_member", n, "", "", 3, NextVal(n)))
 
 -----------------------------------------------------------------------------
@@ -253,45 +261,45 @@ DoMethodSetMember(n) ==
 Pure(n, newc, op, x) == Fresh(Tgt(n), newc, OpRec(op, n, "", Tgt(n), x, 0))
 
 DoConcat(n, one) ==                          \* n + [] | n + [x]   (sets: <<>>)
-  \/ /\ Holds(n, "list") /\ Size(n) < MaxLen
+  \/ /\ HoldsD(n, "list") /\ Size(n) < MaxLen
      /\ Pure(n, MkList(C(n).items \o (IF one THEN <<I(NextVal(n))>> ELSE << >>)),
              IF one THEN "concat_one" ELSE "concat_empty", NextVal(n))
-  \/ /\ Holds(n, "set") /\ Size(n) < MaxLen
+  \/ /\ HoldsD(n, "set") /\ Size(n) < MaxLen
      /\ Pure(n, MkSet(Elems(C(n)) \cup (IF one THEN {NextVal(n)} ELSE {})),
              IF one THEN "concat_one" ELSE "concat_empty", NextVal(n))
 
 DoAddAssign(n) ==                            \* n += [x]: n itself is rebound
-  /\ Holds(n, "list") /\ Size(n) < MaxLen
+  /\ HoldsD(n, "list") /\ Size(n) < MaxLen
   /\ Fresh(n, MkList(Append(C(n).items, I(NextVal(n)))), OpRec("add_assign", n, "", n, NextVal(n), 0))
 
 DoMinus(n, one) ==                           \* n - [] | n - [x]
-  \/ /\ Holds(n, "list") /\ (one => Size(n) > 0 /\ ~IsRef(Last(C(n).items)))
+  \/ /\ HoldsD(n, "list") /\ (one => Size(n) > 0 /\ ~IsRef(Last(C(n).items)))
      /\ LET it == C(n).items
         IN Pure(n, MkList(IF one THEN SelectSeq(it, LAMBDA c : c # Last(it)) ELSE it),
                 IF one THEN "minus_one" ELSE "minus_empty", IF one THEN Last(it).v ELSE 0)
-  \/ /\ Holds(n, "set") /\ (one => Size(n) > 0)
+  \/ /\ HoldsD(n, "set") /\ (one => Size(n) > 0)
      /\ LET x == IF one THEN MaxOf(Elems(C(n))) ELSE 0
         IN Pure(n, MkSet(Elems(C(n)) \ (IF one THEN {x} ELSE {})),
                 IF one THEN "minus_one" ELSE "minus_empty", x)
 
 DoRepeat(n, k) ==                            \* n * k
-  /\ Holds(n, "list") /\ Size(n) * k <= MaxLen
+  /\ HoldsD(n, "list") /\ Size(n) * k <= MaxLen
   /\ Pure(n, MkList(IF k = 1 THEN C(n).items ELSE C(n).items \o C(n).items), "repeat", k)
 
 DoSlice(n, full) ==                          \* n[0 to *] | n[0 to 1]
-  /\ Holds(n, "list")
+  /\ HoldsD(n, "list")
   /\ Pure(n, MkList(IF full \/ Size(n) = 0 THEN C(n).items ELSE <<C(n).items[1]>>),
           IF full THEN "slice_full" ELSE "slice_head", 0)
 
 DoSublist(n) ==                              \* sublist(n, 0)
-  /\ Holds(n, "list") /\ Pure(n, MkList(C(n).items), "sublist", 0)
+  /\ HoldsD(n, "list") /\ Pure(n, MkList(C(n).items), "sublist", 0)
 
 DoSorted(n) ==                               \* sorted(n)
-  /\ Holds(n, "list") /\ AllInts(C(n).items)
+  /\ HoldsD(n, "list") /\ AllInts(C(n).items)
   /\ Pure(n, MkList(SortInts(C(n).items)), "sorted", 0)
 
 DoZip(n) ==                                  \* zip(n, n): the pairs are fresh too
-  /\ Holds(n, "list")
+  /\ HoldsD(n, "list")
   /\ LET it == C(n).items
          fr == SortedSeq(FreeRefs(heap))
      IN /\ Len(fr) >= Len(it) + 1
@@ -305,32 +313,32 @@ DoZip(n) ==                                  \* zip(n, n): the pairs are fresh t
                   OpRec("zip", n, "", Tgt(n), 0, 0))
 
 DoToList(n) ==                               \* list(n)
-  \/ /\ Holds(n, "list") \/ Holds(n, "set")
+  \/ /\ HoldsD(n, "list") \/ HoldsD(n, "set")
      /\ Pure(n, MkList(C(n).items), "to_list", 0)
-  \/ /\ Holds(n, "map") /\ AllInts(C(n).items)
+  \/ /\ HoldsD(n, "map") /\ AllInts(C(n).items)
      /\ Pure(n, MkList(SortInts(C(n).items)), "to_list", 0)
 
 DoToSet(n) ==                                \* set(n)
-  \/ /\ Holds(n, "set") \/ (Holds(n, "list") /\ AllInts(C(n).items))
+  \/ /\ HoldsD(n, "set") \/ (HoldsD(n, "list") /\ AllInts(C(n).items))
      /\ Pure(n, MkSet(Elems(C(n))), "to_set", 0)
-  \/ /\ Holds(n, "map")
+  \/ /\ HoldsD(n, "map")
      /\ Pure(n, MkSet(Range(C(n).keys)), "to_set", 0)
 
 DoToMap(n) ==                                \* map(n)
-  /\ Holds(n, "map") /\ Pure(n, C(n), "to_map", 0)
+  /\ HoldsD(n, "map") /\ Pure(n, C(n), "to_map", 0)
 
 DoToObj(n) ==                                \* object(n)
-  /\ Holds(n, "obj") /\ Pure(n, C(n), "to_object", 0)
+  /\ HoldsD(n, "obj") /\ Pure(n, C(n), "to_object", 0)
 
 DoCompr(n) ==                                \* [x for x in n] and the set / map forms
-  /\ Holds(n, "list") \/ Holds(n, "set") \/ Holds(n, "map")
+  /\ HoldsD(n, "list") \/ HoldsD(n, "set") \/ HoldsD(n, "map")
   /\ Pure(n, C(n), "comprehension", 0)
 
 DoReverse(n) ==                              \* List->reverse(n)
-  /\ Holds(n, "list") /\ Pure(n, MkList(Rev(C(n).items)), "reverse", 0)
+  /\ HoldsD(n, "list") /\ Pure(n, MkList(Rev(C(n).items)), "reverse", 0)
 
 DoSpread(n) ==                               \* [...n]
-  /\ Holds(n, "list") /\ Pure(n, MkList(C(n).items), "spread", 0)
+  /\ HoldsD(n, "list") /\ Pure(n, MkList(C(n).items), "spread", 0)
 
 (* Library functions written in the language (modules/core.ckl, list.ckl):
    each is documented to return a new list ("a list of pieces", "a filtered
@@ -339,7 +347,7 @@ DoSpread(n) ==                               \* [...n]
    argument is. *)
 
 DoChunks(n, whole) ==                        \* chunks(n, MaxLen): one piece | chunks(n, 1): singletons
-  /\ Holds(n, "list") /\ Size(n) > 0        \* (what chunks gives for an empty list is C19's subject)
+  /\ HoldsD(n, "list") /\ Size(n) > 0        \* (what chunks gives for an empty list is C19's subject)
   /\ LET it == C(n).items
          k  == IF whole THEN MaxLen ELSE 1
          np == NumPieces(it, k)
@@ -355,15 +363,15 @@ DoChunks(n, whole) ==                        \* chunks(n, MaxLen): one piece | c
                   OpRec("chunks", n, "", Tgt(n), k, 0))
 
 DoUnique(n) ==                               \* unique(n)
-  /\ Holds(n, "list") /\ AllInts(C(n).items)
+  /\ HoldsD(n, "list") /\ AllInts(C(n).items)
   /\ Pure(n, MkList(FirstOccs(C(n).items)), "unique", 0)
 
 DoFlatten(n) ==                              \* flatten(n): one level; the inner lists' cells are shared
-  /\ Holds(n, "list") /\ Len(FlatCells(heap, C(n).items)) <= MaxLen
+  /\ HoldsD(n, "list") /\ Len(FlatCells(heap, C(n).items)) <= MaxLen
   /\ Pure(n, MkList(FlatCells(heap, C(n).items)), "flatten", 0)
 
 DoFilterAll(n) ==                            \* filter(n, fn(x) TRUE)
-  /\ Holds(n, "list") /\ Pure(n, MkList(C(n).items), "filter", 0)
+  /\ HoldsD(n, "list") /\ Pure(n, MkList(C(n).items), "filter", 0)
 
 \* substitute(n, idx, x): idx inside the list gives the documented list; idx = length or -1 is outside what the documentation
 \* covers: the content is left open (Opaque), the result is a new value all the same
@@ -373,11 +381,11 @@ DoFilterAll(n) ==                            \* filter(n, fn(x) TRUE)
 Opaque(n) == Mk("any", << >>, SelectSeq(C(n).items, IsRef))
 SubstOp(n, idx, c) == Fresh(Tgt(n), c, OpRec("substitute", n, "", Tgt(n), NextVal(n), idx))
 DoSubstitute(n, v) ==
-  /\ Holds(n, "list")
+  /\ HoldsD(n, "list")
   /\ \/ /\ v = 0 /\ Size(n) > 0
         /\ SubstOp(n, 0, MkList(<<I(NextVal(n))>> \o Tail(C(n).items)))
-     \/ /\ v = 1 /\ SubstOp(n, Size(n), Opaque(n))
-     \/ /\ v = 2 /\ SubstOp(n, 0 - 1, Opaque(n))
+     \/ /\ v = 1 /\ Variants /\ SubstOp(n, Size(n), Opaque(n))
+     \/ /\ v = 2 /\ Variants /\ SubstOp(n, 0 - 1, Opaque(n))
 
 (* Reads.  A read binds a name to the cell the container holds: for a nested
    container that is the reference itself (the container is one more holder
@@ -388,18 +396,18 @@ Read1(n, cell, op, x, y) ==
   /\ Finish(heap, [names EXCEPT ![Tgt(n)] = cell], OpRec(op, n, "", Tgt(n), x, y))
 
 DoGet(n) ==                                  \* t = n[0] | t = n[-1] | t = n[k] | t = n->mem
-  \/ /\ Holds(n, "list") /\ Size(n) > 0 /\ Read1(n, C(n).items[1], "get", 0, 0)
-  \/ /\ Holds(n, "list") /\ Size(n) > 1 /\ Read1(n, C(n).items[Size(n)], "get", 0 - 1, 0)
-  \/ /\ Holds(n, "map") /\ Size(n) > 0 /\ Read1(n, Last(C(n).items), "get", Last(C(n).keys), 0)
-  \/ /\ Holds(n, "obj") /\ Size(n) > 0 /\ Last(C(n).keys) # 4
+  \/ /\ HoldsD(n, "list") /\ Size(n) > 0 /\ Read1(n, C(n).items[1], "get", 0, 0)
+  \/ /\ HoldsD(n, "list") /\ Size(n) > 1 /\ Read1(n, C(n).items[Size(n)], "get", 0 - 1, 0)
+  \/ /\ HoldsD(n, "map") /\ Size(n) > 0 /\ Read1(n, Last(C(n).items), "get", Last(C(n).keys), 0)
+  \/ /\ HoldsD(n, "obj") /\ Size(n) > 0 /\ Last(C(n).keys) # 4
      /\ Read1(n, Last(C(n).items), "get_member", Last(C(n).keys), 0)
 
 DoGetDefault(n, present) ==                  \* t = n[k, 7]: k there -> the cell; k not there -> 7
-  \/ /\ Holds(n, "map") /\ present /\ Size(n) > 0
+  \/ /\ HoldsD(n, "map") /\ present /\ Size(n) > 0
      /\ Read1(n, Last(C(n).items), "get_default", Last(C(n).keys), 7)
-  \/ /\ Holds(n, "map") /\ ~present /\ ~HasKey(C(n), AbsentKey)
+  \/ /\ HoldsD(n, "map") /\ ~present /\ ~HasKey(C(n), AbsentKey)
      /\ Read1(n, I(7), "get_default", AbsentKey, 7)
-  \/ /\ Holds(n, "obj") /\ ~present /\ ~HasKey(C(n), 3) /\ ~HasKey(C(n), 4)
+  \/ /\ HoldsD(n, "obj") /\ ~present /\ ~HasKey(C(n), 3) /\ ~HasKey(C(n), 4)
      /\ Read1(n, I(7), "get_member_default", 3, 7)
 
 \* a literal evaluated again (inside a function called once more) is a fresh
@@ -409,11 +417,11 @@ LitStr  == Mk("str", << >>, <<I(1), I(2)>>)
 \* `def lit_def(x = [1]) x`: the default expression of a parameter is evaluated at every call
 \* that does not pass the argument ("lit_default")
 DoLit(t, kind) ==
-  /\ t \in Names
+  /\ d < MaxDepth /\ t \in Names /\ (kind = "lit_default" => Variants)
   /\ Fresh(t, IF kind = "lit_str" THEN LitStr ELSE LitList, OpRec(kind, "", "", t, 0, 0))
 
 DoAlias(n1, n2) ==                           \* n2 = n1
-  /\ n1 # n2 /\ names[n1] # names[n2] /\ ~Holds(n1, "str") /\ ~Holds(n1, "any")
+  /\ d < MaxDepth /\ n1 # n2 /\ names[n1] # names[n2] /\ ~Holds(n1, "str") /\ ~Holds(n1, "any")
   /\ Finish(heap, [names EXCEPT ![n2] = names[n1]], OpRec("alias", n1, "", n2, 0, 0))
 
 Mutator(n) ==
@@ -422,8 +430,7 @@ Mutator(n) ==
   \/ DoSetElem(n) \/ DoSetMember(n, 1) \/ DoSetMember(n, 3)
   \/ DoAddAssignElem(n) \/ DoMethodSetMember(n)
   \/ \E m \in Names : \/ DoAppendRef(n, m) \/ DoAppendRefSet(n, m) \/ DoAppendAll(n, m) \/ DoPutRef(n, m)
-                      \/ DoPutRefKey(n, m)
-                      \/ DoSetElemRef(n, m) \/ DoSetMemberRef(n, m)
+                      \/ DoPutRefKey(n, m) \/ DoSetElemRef(n, m) \/ DoSetMemberRef(n, m)
 
 NonMutating(n) ==
   \/ \E one \in BOOLEAN : DoConcat(n, one) \/ DoMinus(n, one) \/ DoSlice(n, one)
